@@ -12,8 +12,9 @@ package main
 //  (iii) negative cases: one statement line of a block dedented to the enclosing block's column: fc
 //        must reject with a diagnostic or emit different Go, exactly when the model parser rejects or
 //        recovers a different tree.
-//  (iv)  hazard stream "elif-one-line" (finding n): one-line if/elif/else and an inline then-body
-//        followed by else/elif on the next line.
+//  (iv)  hazard stream "string-arm-dedent": arms of a string match are not tied to the offside line.
+//        (Finding n, "elif-one-line", is repaired: one-line if/elif/else and a same-line then-body followed
+//        by else/elif on a later line are layouts of the main stream.)
 
 import (
 	"fmt"
@@ -656,64 +657,7 @@ func runC06(c *Ctx) {
 	})
 	c.Lap("over-indent")
 
-	// ---- (iv) hazard stream: finding (n)
-	hazFail, hazPass := 0, 0
-	var hazExample map[string]any
-	type hazSite struct {
-		cs   *c06Case
-		at   int
-		kind string
-	}
-	byKind := map[string][]hazSite{}
-	for _, cs := range cases {
-		if cs == nil || cs.Out == "" {
-			continue
-		}
-		probe := cs.Prog.render(rng.Fork(), layOpt{Hazard: true, HazAt: -1})
-		for at, kind := range probe.hazKinds {
-			byKind[kind] = append(byKind[kind], hazSite{cs, at, kind})
-		}
-	}
-	nHaz := c.Pick(12, 200)
-	var hazSites []hazSite
-	for _, kind := range SortedKeys(byKind) {
-		sites := byKind[kind]
-		for i := 0; i < nHaz && len(sites) > 0; i++ {
-			hazSites = append(hazSites, sites[rng.Intn(len(sites))])
-		}
-	}
-	for _, hs := range hazSites {
-		cs := hs.cs
-		o := c06RandOpt(rng)
-		o.Hazard = true
-		o.HazAt = hs.at
-		l := cs.Prog.render(rng.Fork(), o)
-		src := string(l.b)
-		rk := h.transpile(src)
-		out, ok := c06Out(rk)
-		c.Eval(src, true)
-		c.Count("hazard:" + l.HazKind)
-		if l.HazKind != hs.kind {
-			panic("hazard site not reproduced")
-		}
-		if rk.Died {
-			c.Violate("crash", "fc crashed on a hazard layout", map[string]any{"src": src}, false)
-			continue
-		}
-		if ok && out == cs.Out {
-			hazPass++
-			continue
-		}
-		hazFail++
-		ex := map[string]any{"program": cs.Prog.Name, "shape": l.HazKind, "canonical_src": cs.Canon, "layout_src": src, "layout_err": rk.Err}
-		if hazExample == nil || len(src) < len(hazExample["layout_src"].(string)) {
-			hazExample = ex
-		}
-		if !(strings.Contains(rk.Err, "Unown atom") || ok) {
-			// fails in a way the known finding does not describe
-			c.Violate("hazard-other", "hazard layout fails differently from the known finding: "+rk.Err, ex, false)
-		}
-	}
+	// ---- (iv) hazard stream
 	// hazard "string-arm-dedent": the literal arms and the variable rule of a string match are not tested
 	// against the offside line (parseSMRules / parseStringVarRule have no insideOffside): such an arm
 	// dedented below the block that contains the match does not end that block.
@@ -770,14 +714,17 @@ func runC06(c *Ctx) {
 			c.Violate("string-arm-dedent", "an arm of a string match dedented below the block that contains the match does not end that block (literal and variable rules are not tested against the offside line): the emitted Go is unchanged", saExample, false)
 		}
 	}
-	c.Res.Extra["hazard_elif_one_line"] = map[string]int{"still_failing": hazFail, "passing": hazPass}
-	if hazFail > 0 {
-		if c.IsKnown("elif-one-line") {
-			c.Known("elif-one-line")
-			c.Note("hazard elif-one-line still fails (%d of %d): e.g. %v", hazFail, hazFail+hazPass, hazExample["layout_err"])
-		} else {
-			c.Violate("elif-one-line", "an if written on one line with elif, or with an inline then-body followed by else/elif on the next line, is rejected while the multi-line form is accepted", hazExample, false)
-		}
+	// observation (not a stream, no key): the dangling else ignores the offside line. A multi-line if without
+	// else that ends a then-block takes the else of the enclosing if although that else stands left of the
+	// block that contains the inner if; written on one line the inner if does not take it. The generators
+	// never end a then-block with a multi-line if without else (Layout.wf_ifrest: block_io prev = false).
+	{
+		hdr := "package main\nimport frt\nlet f (x:int) =\n  if x > 0 then\n    frt.Println \"a\"\n"
+		rest := "  else\n    frt.Println \"c\"\n  frt.Println \"d\"\n"
+		multi := h.transpile(hdr + "    if x > 1 then\n      frt.Println \"b\"\n" + rest)
+		one := h.transpile(hdr + "    if x > 1 then frt.Println \"b\"\n" + rest)
+		c.Res.Extra["observation_dangling_else"] = map[string]any{"inner_if_multi_line_ok": multi.Ok, "inner_if_multi_line_err": multi.Err,
+			"inner_if_one_line_ok": one.Ok, "same_output": multi.Ok && one.Ok && multi.Outs["gen_x.go"] == one.Outs["gen_x.go"]}
 	}
 	c.Lap("hazard")
 
